@@ -12,7 +12,9 @@ REF_STATES = [None, "ref = 0", "ref = 1", "ref = 42", "ref = 4294967295",
               'ref = "abc"', "ref = x", "ref = x.id", "ref = 1.5", "ref = 4294967296",
               # integer literals beyond the ID range, up to beyond every machine integer: not a usable reference, and nothing to crash on
               "ref = 18446744073709551615", "ref = 18446744073709551616", "ref = 340282366920938463463374607431768211456",
-              "ref = 99999999999999999999999999999999999999999999999999", "ref = 0000000000000000000000007"]
+              "ref = 99999999999999999999999999999999999999999999999999", "ref = 0000000000000000000000007",
+              # the form Breadlog writes for IDs above i32::MAX (a bare literal that large does not compile as a key-value), and its near misses
+              "ref = 2147483648u32", "ref = 4294967295u32", "ref = 7u32", "ref = 4294967296u32"]
 TARGETS = [None, '"t"']
 DIRECTIVES = ["", "    // breadlog:no-kvp\n"]
 CORE_SHAPES = ['k = 1', 'k = "a;b,c"', 'k = x', 'k', 'k:? = x', 'k:display']
@@ -66,7 +68,7 @@ def classify(f):
         tags.append("target")
     if REF_STATES[ri] is None:
         tags.append("ref-absent")
-    elif ri <= 4:
+    elif ri <= 4 or REF_STATES[ri].endswith("u32"):
         tags.append("ref-literal")
     else:
         tags.append("ref-nonliteral")
